@@ -11,11 +11,11 @@ Theorem C02_redeem_only_by_holder_and_grant_preserved :
   exists k r cl, redeem_facts cfg s auth code redirect v vh k r cl /\
     let res := redeem cfg s auth code redirect v vh in
     o_scopes (snd res) = r_gscopes r /\
-    o_expires_in (snd res) = expires_in (set_token_expiries cfg (now s) (r_sess r)) cfg (now s) /\
-    (exists ka, access (st (fst res)) ka = Some (minted_record cfg s r cl)) /\
+    o_expires_in (snd res) = expires_in (set_token_expiries (eff_cfg cfg cl LAuthCode) (now s) (r_sess r)) cfg (now s) /\
+    (exists ka, access (st (fst res)) ka = Some (minted_record (eff_cfg cfg cl LAuthCode) s r cl)) /\
     (In KRefresh (o_minted (snd res)) ->
        can_refresh cfg (r_gscopes r) (r_cl r) = true /\
-       exists kr, refresh (st (fst res)) kr = Some (true, minted_record cfg s r cl)).
+       exists kr, refresh (st (fst res)) kr = Some (true, minted_record (eff_cfg cfg cl LAuthCode) s r cl)).
 Proof. exact redeem_ok_facts. Qed.
 Print Assumptions C02_redeem_only_by_holder_and_grant_preserved.
 
